@@ -169,10 +169,12 @@ func lemmaTickMonotone(intervalStart uint64, intervalsPerDay uint32, t1, t2 uint
 
 //@ func ParseTGData
 //@ option nooverflow
-//@ props C28 C06
+//@ props C28 C06 C05
+//@ requires #valid: tgValid(base(tgSerialized), len(tgSerialized))
 //@ requires #hdr: len(tgSerialized) >= 16
 //@ requires #count: 0 <= sle64(tgSerialized, 8) && sle64(tgSerialized, 8) <= 2147483647
 //@ requires #fits: tgFits(mem(tgSerialized), base(tgSerialized)+16, sle64(tgSerialized, 8), base(tgSerialized)+len(tgSerialized))
+//@ loop 0 invariant #cnt: WTCount == sle64(tgSerialized, 8)
 //@ loop 0 invariant #idx: 0 <= i && i <= WTCount && 16 <= cursor && cursor <= len(tgSerialized) && len(wtSets) == WTCount
 //@ loop 0 invariant #fits: tgFits(mem(tgSerialized), base(tgSerialized)+cursor, WTCount - i, base(tgSerialized)+len(tgSerialized))
 //@ loop 0 step #next: base(tgSerialized) + cursor == wtNext(mem(tgSerialized), base(tgSerialized) + prev(cursor))
@@ -191,6 +193,7 @@ func lemmaTickMonotone(intervalStart uint64, intervalsPerDay uint32, t1, t2 uint
 //@ requires #pos: 0 <= filePos
 //@ ensures #okLen: err == nil ==> (len(result) == len(buffer) && base(result) == base(buffer) && filePos == old(filePos) + len(buffer))
 //@ ensures #progress: filePos >= old(filePos)
+//@ ensures #bounded: old(filePos) <= fileSize ==> filePos <= fileSize
 //@ ensures #data: err == nil ==> forall(k, 0, len(buffer), result[k] == fileContent[old(filePos) + k])
 
 //@ func (*WALFileType).readMessageID
@@ -199,6 +202,7 @@ func lemmaTickMonotone(intervalStart uint64, intervalsPerDay uint32, t1, t2 uint
 //@ ensures #ok: err == nil ==> (mid == TGDATA || mid == TXNINFO || mid == STATUS)
 //@ ensures #consumed: (err == nil || !(err == goio.EOF || typeis(err, "@/executor/wal.ShortReadError"))) ==> filePos == old(filePos) + 1
 //@ ensures #progress: filePos >= old(filePos)
+//@ ensures #bounded: old(filePos) <= fileSize ==> filePos <= fileSize
 
 // tgValid(b, n): the n bytes at address b passed the WAL frame checksum (typestate set only by validateCheckSum).
 //@ ghost func tgValid(b int, n int) bool
@@ -218,20 +222,52 @@ func lemmaTickMonotone(intervalStart uint64, intervalsPerDay uint32, t1, t2 uint
 //@ ensures #ok: err == nil ==> (len(tgSerialized) >= 8 && tgID == sle64(tgSerialized, 0) && tgValid(base(tgSerialized), len(tgSerialized)))
 //@ ensures #fail: err != nil ==> (tgSerialized == nil && tgID == 0)
 //@ ensures #progress: filePos >= old(filePos)
+//@ ensures #bounded: old(filePos) <= fileSize ==> filePos <= fileSize
 //@ ensures #allocBound: err == nil ==> len(tgSerialized) < 1000*fileSize
 
 //@ func @/executor/wal.ReadStatus
 //@ props C06
 //@ requires #pos: 0 <= filePos
 //@ ensures #progress: filePos >= old(filePos)
+//@ ensures #bounded: old(filePos) <= fileSize ==> filePos <= fileSize
 
 //@ func (*WALFileType).readTransactionInfo
 //@ props C06 C05
 //@ requires #pos: 0 <= filePos
 //@ ensures #progress: filePos >= old(filePos)
+//@ ensures #bounded: old(filePos) <= fileSize ==> filePos <= fileSize
 //@ ensures #ok: err == nil ==> ((destination == CHECKPOINT || destination == WAL) && (txnStatus == PREPARING || txnStatus == COMMITINTENDED || txnStatus == COMMITCOMPLETE))
 
 //@ func fullRead
 //@ props C06
 //@ ensures #nil: err == nil ==> result
 //@ ensures #eof: err == goio.EOF ==> !result
+//@ ensures #short: typeis(err, "@/executor/wal.ShortReadError") ==> !result
+
+// sortedAsc(b, n): typestate set by sort.Sort on a TGIDlist (ascending by TGIDlist.Less, which is under contract)
+//@ ghost func sortedAsc(b int, n int) bool
+
+//@ func sort.Sort
+//@ trusted "stdlib: sorts by data.Less; abstracted by the typestate sortedAsc for TGIDlist"
+//@ modifies mem:int64
+//@ marks #sorted: typeis(data, "TGIDlist") ==> sortedAsc(base(asslice(data, "int64")), len(asslice(data, "int64")))
+
+//@ func (TGIDlist).Less
+//@ props C05 C01
+//@ requires #idx: 0 <= i && i < len(tgl) && 0 <= j && j < len(tgl)
+//@ ensures #ascending: result == (tgl[i] < tgl[j])
+
+//@ func (*WALFileType).Replay
+//@ props C06 C05 C01
+//@ assumepre executor.ParseTGData.hdr "A-WAL: a checksum-valid TG frame was produced by serializeTG (md5 collision-freeness; no adversary forging checksums)"
+//@ assumepre executor.ParseTGData.count "A-WAL"
+//@ assumepre executor.ParseTGData.fits "A-WAL"
+//@ loop 0 invariant #pos: 0 <= filePos && filePos <= fileSize
+//@ loop 0 invariant #onlyValid: forallint(k, pattern(tgData[k]), (in(k, tgData) && tgData[k] != nil) ==> (tgValid(base(tgData[k]), len(tgData[k])) && len(tgData[k]) >= 8))
+//@ loop 0 decreases (fileSize - filePos)*2 + ite(continueRead, 1, 0)
+// the discard loop runs only for a COMPLETED checkpoint record
+//@ loop 1 invariant #onlyOnCompletedCheckpoint: txnStatus == COMMITCOMPLETE && destination == CHECKPOINT
+//@ loop 1 invariant #onlyValid: forallint(k, pattern(tgData[k]), (in(k, tgData) && tgData[k] != nil) ==> (tgValid(base(tgData[k]), len(tgData[k])) && len(tgData[k]) >= 8))
+//@ loop 2 invariant #onlyValid: forallint(k, pattern(tgData[k]), (in(k, tgData) && tgData[k] != nil) ==> (tgValid(base(tgData[k]), len(tgData[k])) && len(tgData[k]) >= 8))
+//@ loop 3 invariant #idx: 0 <= iter0 && iter0 <= len(sortedTGIDs)
+//@ loop 3 invariant #sortedBeforeApply: sortedAsc(base(sortedTGIDs), len(sortedTGIDs))
